@@ -167,5 +167,5 @@ META = {
     "level": "Static decision that `reserved` changes only in add/remove (by the scanned contribution) and in resize/setAlignment (to the packed total), that add and remove run the identical overlap scan so a release "
              "subtracts exactly what the reservation added, that set, ring and counter are updated together and in the right order, that resize rejects sizes below the reserved amount before any effect, "
              "and that size only ever takes aligned amounts. Covers every history's bookkeeping step; tests check a few totals.",
-    "note": "Does not decide the identity reserved == |union of aligned ranges| (arithmetic over runtime ranges).",
+    "note": "Does not decide the identity reserved == |union of aligned ranges| (arithmetic over runtime ranges). An outside dynamic probe (DESIGN 10.9, probes/P03) shows the identity FAILS for partially overlapping reservations: add/remove subtract the intersection with a neighbour instead of the uncovered remainder (both identically, which is why the sibling rule C04-R2 is satisfied); `reserved` drifts and can underflow. No rule here reports that.",
 }
